@@ -87,7 +87,7 @@ def replay_venn(vals, oid):
     for ns_ in (2, 3):
         for chunk in (3000, 7000, 100000):
             for boundary in (False, True):
-                tot, want = native_venn(rng, ns_, chunk, boundary)
+                tot, want = native_venn(rng, ns_, chunk, boundary, silent=boundary)
                 if tot != want:
                     bad.append({"sorters": ns_, "chunk_size": chunk, "attributed": int(tot), "spikes": int(want)})
     return {"failed": bool(bad), "examples": bad[:3]}
@@ -203,6 +203,36 @@ def h_venn_code(H):
         q = z3.Int("q")
         it.ctx.oblige("venn.chunks.spikes_of_chunk", z3.And(lo >= 0, lo <= hi, hi <= n, A.forall([q], lambda: z3.Implies(z3.And(q >= 0, q < n), z3.And(q >= lo, q < hi) == z3.And(samples.read((q,)) >= ch * chunk, samples.read((q,)) < (ch + 1) * chunk)))), "post",
                       "chunk ch sees exactly the spikes with ch*chunk <= sample < (ch+1)*chunk: every spike is binned in exactly one chunk, whatever the chunk size", assume=False)
+        # the per-bin counts of this chunk: one row per sorter, computed from this chunk's spikes of that sorter only (nothing carried over)
+        nsel = {}
+        calls = []
+
+        def bincount_summary(it_, a, k):
+            x_, y_ = A.as_sarr(a[0]), A.as_sarr(a[1])
+            out = A.fresh_array(f"counts2d_{len(calls)}", "int64", (z3.Int("nbins_channels"), z3.Int("nbins_samples")), ranged=False)
+            calls.append({"x": x_, "y": y_, "args": list(a[2:]), "out": out})
+            return out, None, None
+        it.ctx.assume(z3.And(z3.Int("nbins_channels") >= 1, z3.Int("nbins_samples") >= 1))
+        it.session.contracts[ST.bincount2D] = bincount_summary
+        cnt_st = [st for st in outer.body if isinstance(st, ast.Assign) and isinstance(st.targets[0], ast.Name) and st.targets[0].id in ("channels_chunks", "bin_counts")]
+        if len(cnt_st) != 2:
+            raise I.Unsupported("cannot identify the per-bin counts of a chunk in _spikes_venn()")
+        env.vars.update(dict(samples_binsize=12, channels_binsize=4, num_channels=384))
+        it.exec_block(cnt_st, env)
+        bc = env.vars["bin_counts"]
+        okc = len(calls) == 1 and isinstance(bc, A.SArr) and bc.ndim == 2 and A.conc(bc.shape[0]) == 1
+        it.ctx.oblige("venn.chunks.counts_from_this_chunk_only", z3.BoolVal(bool(okc and calls[0]["x"] is env.vars["samples_chunks"][0] and calls[0]["y"] is env.vars["channels_chunks"][0])), "post",
+                      "each sorter's row of the count array is the 2-D bin count of that sorter's spikes in THIS chunk (local times, channels)")
+        if okc:
+            cb, tb = z3.Ints("cb tb")
+            nbc, nbs = A.T(calls[0]["out"].shape[0]), A.T(calls[0]["out"].shape[1])
+            fl = getattr(it.ctx, "flatten_log", [])
+            if len(fl) != 1:
+                raise I.Unsupported("cannot identify the flattening of the 2-D histogram in _spikes_venn()")
+            pos = fl[0]["flat"]          # position of bin (channel bin, time bin) in the flattened row (row-major; abstracted as a bijection)
+            it.ctx.oblige("venn.chunks.counts_row_is_the_flattened_histogram", z3.And(A.T(bc.shape[1]) == fl[0]["n"],
+                          A.forall([cb, tb], lambda: z3.Implies(z3.And(cb >= 0, cb < nbc, tb >= 0, tb < nbs), bc.read((z3.IntVal(0), pos(cb, tb))) == calls[0]["out"].read((cb, tb))))), "post",
+                          "every bin of the histogram appears in the sorter's row, at the same position for every sorter", assume=False)
         local = env.vars["samples_chunks"][0]
         it.ctx.oblige("venn.chunks.local_times", z3.And(A.T(local.shape[0]) == hi - lo, A.forall([q], lambda: z3.Implies(z3.And(q >= 0, q < hi - lo), z3.And(local.read((q,)) == samples.read((lo + q,)) - ch * chunk, local.read((q,)) >= 0, local.read((q,)) < chunk)))), "post",
                       "spike times handed to the 2-D bin count are relative to the chunk start and inside [0, chunk_size)", assume=False)
@@ -210,12 +240,16 @@ def h_venn_code(H):
 
 
 # ----------------------------------------------------------------------------- bounded
-def native_venn(rng, nsorters, chunk, last_on_boundary):
+def native_venn(rng, nsorters, chunk, last_on_boundary, silent=False):
     fs = 30000
     trains = []
     for s in range(nsorters):
         n = int(rng.integers(50, 400))
         t = np.sort(rng.integers(0, 6 * chunk, n))
+        if silent and s == 1:
+            t = t[(t < 2 * chunk) | (t >= 4 * chunk)]            # this sorter finds nothing during two whole chunks
+        if silent and s == 0:
+            t = t[t < 5 * chunk]                                 # and this one stops a chunk before the others
         if last_on_boundary:
             t[-1] = 5 * chunk
             t = np.sort(np.minimum(t, 5 * chunk))
@@ -341,6 +375,9 @@ def b_native(B):
                 for rep in range(1 if B.tier == "quick" else 4):
                     tot, want = native_venn(rng, ns, chunk, boundary)
                     B.case(("venn", ns, chunk, boundary, rep), tot == want, detail={"attributed": tot, "spikes": want})
+            # sorters that are silent during whole chunks / stop before the others
+            tot, want = native_venn(rng, ns, chunk, False, silent=True)
+            B.case(("venn_silent_chunks", ns, chunk), tot == want, detail={"attributed": tot, "spikes": want})
     bad = native_rank(rng)
     B.case("rank_reduction", not bad, detail=bad[:5])
     bad = native_savgol(rng)
